@@ -252,9 +252,9 @@ def _check_rank_null(A4, r_true):
     Pm, Qm = rng.standard_normal((m, m, 4)) + 3 * rt.eye4(m), rng.standard_normal((n, n, 4)) + 3 * rt.eye4(n)
     if u.rank(rt.q_from4(rt.qmm(rt.qmm(Pm, A4), Qm))) != rk:
         return {"what": "rank not invariant under multiplication by invertible matrices"}
-    if rk * 4 != np.linalg.matrix_rank(u.real_expand(A), tol=1e-9 * max(1.0, rt.fro(A4))):
+    if rk * 4 != np.linalg.matrix_rank(u.real_expand(A), tol=1e-9 * (rt.fro(A4) or 1.0)):
         return {"what": "rank is not one quarter of the rank of the real representation"}
-    sc = max(1.0, rt.fro(A4))
+    sc = rt.fro(A4) or 1.0
     for side, dim, F in (("right", n, A4), ("left", m, rt.qH(A4))):
         N = u.quat_null_space(A, side=side)
         N4 = rt.q_to4(N) if N.size else np.zeros((dim, 0, 4))
@@ -353,6 +353,58 @@ def bounded(rep: Report, tier, seed):
                            facts={"m": m, "n": n, "rank": r}, inputs={"A": A4})
     b.samples.append({"shape": [4, 3], "rank": 1, "nullity_right": 2})
     b.done()
+    from .. import runtime as rt
+    b3 = rep.add_bounded(Bounded("scaling_and_thresholds", "matrices of every rank scaled by 1e-11 .. 1e8; wide / tall matrices with one singular value just below / above eps*max(m,n)*s_max",
+                                 "rank and null-space dimensions are invariant under scaling by a non-zero real; rank(A) = rank(A^H) at the documented threshold"))
+    for (m, n) in ((3, 3), (2, 4), (4, 2), (2, 12), (12, 2)) + (((5, 3), (3, 5)) if tier == "thorough" else ()):
+        for r in range(0, min(m, n) + 1):
+            A4 = make_rank(rng, m, n, r)
+            for c in (1e-11, 1e-6, 1e3, 1e8):
+                b3.case(f"{P}.bounded.scaled", (m, n, r, c), lambda A4=A4, r=r, c=c: _check_rank_null(c * A4, r), f"{m}x{n} rank {r} scaled by {c:g}", facts={"m": m, "n": n, "rank": r, "scale": c}, inputs={"A": c * A4})
+        if min(m, n) >= 2:
+            eps = np.finfo(float).eps
+            for fac, want in ((0.5, min(m, n) - 1), (4.0, min(m, n))):
+                # smallest singular value = fac * eps * max(m, n) * s_max: below (fac < 1) or above the documented threshold
+                sv = [1.0] * (min(m, n) - 1) + [fac * eps * max(m, n)]
+                A4 = rt.from_svd(rng, m, n, sv)[0]
+
+                def f(A4=A4, want=want):
+                    u = rt.real().utils
+                    s_true = rt.singular_values(A4)
+                    thr = np.finfo(float).eps * max(A4.shape[:2]) * s_true[0]
+                    if abs(s_true[-1] - thr) < 0.3 * thr:
+                        return None        # too close to call after rounding
+                    want_now = int(np.sum(s_true > thr))
+                    r1, r2 = u.rank(rt.q_from4(A4)), u.rank(u.quat_hermitian(rt.q_from4(A4)))
+                    if r1 != want_now or r2 != want_now:
+                        return {"what": "rank at the documented default threshold eps*max(m,n)*s_max", "rank(A)": r1, "rank(A^H)": r2, "want": want_now, "smallest": float(s_true[-1]), "threshold": float(thr)}
+                    return None
+                b3.case(f"{P}.bounded.threshold", (m, n, fac), f, f"{m}x{n} smallest singular value {fac} x threshold", inputs={"A": A4})
+    b3.samples.append({"shape": [2, 12], "singular_values": [1, 1.3e-15]})
+    b3.done()
+    b4 = rep.add_bounded(Bounded("moore_signs", "Hermitian matrices n = 1..4 with prescribed spectra of every sign pattern (incl. 1x1 negative, zero eigenvalue)", "Moore determinant = product of eigenvalues (sign included)"))
+    for n in range(1, 5):
+        for signs in itertools.product((-1.0, 1.0), repeat=n):
+            lam = [sg * (1.5 + i) for i, sg in enumerate(signs)]
+            for zero in (False, True):
+                if zero and n == 1:
+                    lam2 = [0.0]
+                elif zero:
+                    lam2 = lam[:-1] + [0.0]
+                else:
+                    lam2 = lam
+                from .c08 import hermitian_from_spectrum
+                H4 = hermitian_from_spectrum(rng, lam2)
+
+                def g(H4=H4, lam2=lam2):
+                    dm = rt.real().utils.det(rt.q_from4(H4), "Moore")
+                    want = float(np.prod(lam2))
+                    if not abs(complex(dm) - want) <= 1e-8 * max(1.0, abs(want)):
+                        return {"what": "Moore determinant differs from the product of eigenvalues", "got": str(dm), "want": want}
+                    return None
+                b4.case(f"{P}.bounded.moore", (n, signs, zero), g, f"Moore determinant n={n} spectrum {lam2}", inputs={"A": H4, "spectrum": lam2})
+    b4.samples.append({"n": 1, "A": [[-2.5]], "want": -2.5})
+    b4.done()
     b2 = rep.add_bounded(Bounded("determinants", "n <= 4 (5); products of random factors; prescribed spectra", "Dieudonne = prod(s), multiplicative, zero iff singular; Moore = prod(lambda) on Hermitian input; ishermitian classification"))
     for n in range(1, mx + 1):
         for t in range(2 if tier == "quick" else 6):
